@@ -113,7 +113,7 @@ PROPS = {
         "checkers": {"BASE": "check_c01", "C01": "check_c01", "C02": "check_c01", "C10": "check_c01", "C03": "check_c01"},
         "harness": [{"bin": "conn", "env": {"VERIF_FAMILIES": "BASE,C01,C02,C10,C03"}}],
         "shard": 40,
-        "quick_scale": 1, "thorough_scale": 8, "search_factor": 4,
+        "quick_scale": 1, "thorough_scale": 4, "search_factor": 4,
         "ties": ["conn binary: real Connection::listen on a scripted transport/client/adapters in a paused runtime vs Conn.Sem1.run1 (sends, calls, outcome, virtual ms)",
                  "Gen/PacketsGen.v descriptors decode the client's frames and encode the model's packets"],
         "allowed_axioms": [],
@@ -132,7 +132,7 @@ PROPS = {
         "checkers": {"BASE": "check_c02_json", "C02": "check_c02_json", "C01": "check_c02_json", "C10": "check_c02_json"},
         "harness": [{"bin": "conn", "env": {"VERIF_FAMILIES": "BASE,C02,C01,C10"}}, {"bin": "cookie", "case_type": "ckcase", "imports": ["Lib.Bytes", "Conn.Types", "Run.CaseCookie"], "checkers": {"SG": "check_cookie", "CK": "check_cookie", "JS": "check_cookie", "JP": "check_cookie"}, "shard": 100}],
         "shard": 40,
-        "quick_scale": 1, "thorough_scale": 8, "search_factor": 4,
+        "quick_scale": 1, "thorough_scale": 4, "search_factor": 4,
         "ties": ["cookie binary JS/JP: the real serde_json to_vec / from_slice on AuthCookie and SessionCookie vs the Gallina serde of Crypto/CookieJson.v (writer bytes equal; parser verdict and record equal whenever the model decides), and the serde tables recorded in every conn case vs the same model (Run/CaseConnJson.v)", "conn binary: real Connection::listen on a scripted transport/client/adapters in a paused runtime vs Conn.Sem1.run1 (sends, calls, outcome, virtual ms)",
                  "Gen/PacketsGen.v descriptors decode the client's frames and encode the model's packets"],
         "allowed_axioms": [],
@@ -171,7 +171,7 @@ PROPS = {
         "checkers": {"BASE": "check_c06", "C06": "check_c06", "C01": "check_c06", "C02": "check_c06", "C07": "check_c06", "C10": "check_c06", "C03": "check_c06", "WCAN": "check_c06"},
         "harness": [{"bin": "conn", "env": {"VERIF_FAMILIES": "BASE,C06,C01,C02,C07,C10,C03,WCAN,WCAP"}}],
         "shard": 40,
-        "quick_scale": 1, "thorough_scale": 8, "search_factor": 4,
+        "quick_scale": 1, "thorough_scale": 4, "search_factor": 4,
         "ties": ["conn binary: real Connection::listen on a scripted transport/client/adapters in a paused runtime vs Conn.Sem1.run1 (sends, calls, outcome, virtual ms)",
                  "Gen/PacketsGen.v descriptors decode the client's frames and encode the model's packets"],
         "allowed_axioms": [],
@@ -212,7 +212,7 @@ PROPS = {
         "checkers": {"BASE": "check_c10_json", "C10": "check_c10_json", "C02": "check_c10_json", "C03": "check_c10_json"},
         "harness": [{"bin": "conn", "env": {"VERIF_FAMILIES": "BASE,C10,C02,C03"}}, {"bin": "listener", "crate": "harness-app", "families": ["ADM"], "env": {"VERIF_FAMILY": "ADM"}, "case_type": "lstcase", "imports": ["Lib.Bytes", "Limiter.Limiter", "Listener.Machine", "Listener.Wire", "Run.CaseLst"], "checkers": {"ADM": "check_c15"}, "shard": 20}, {"bin": "cookie", "case_type": "ckcase", "imports": ["Lib.Bytes", "Conn.Types", "Run.CaseCookie"], "checkers": {"SG": "check_cookie", "CK": "check_cookie", "JS": "check_cookie", "JP": "check_cookie"}, "shard": 100}],
         "shard": 40,
-        "quick_scale": 1, "thorough_scale": 8, "search_factor": 4,
+        "quick_scale": 1, "thorough_scale": 4, "search_factor": 4,
         "ties": ["cookie binary JS/JP: the real serde_json to_vec / from_slice on AuthCookie and SessionCookie vs the Gallina serde of Crypto/CookieJson.v (writer bytes equal; parser verdict and record equal whenever the model decides), and the serde tables recorded in every conn case vs the same model (Run/CaseConnJson.v)", "conn binary: real Connection::listen on a scripted transport/client/adapters in a paused runtime vs the byte-level model Conn.Sem2.run2 on the delivered timed segments (sends, calls, outcome, virtual ms), with no class exempted",
                  "Conn.Sem2.run2 vs Conn.Sem1.run1 o Reader.frames_of on every case (equal on every schedule: C08_refines), and the implementation's untimed observation vs M1 o reader on every case (the property itself)",
                  "Gen/PacketsGen.v descriptors decode the client's frames and encode the model's packets"],
@@ -231,7 +231,7 @@ PROPS = {
         "imports": ["Lib.Bytes", "Run.CaseC12"],
         "case_type": "c12case",
         "checkers": {"REQ": "check_c12"},
-        "harness": [{"bin": "mojang", "crate": "harness-net"}, {"bin": "conn", "env": {"VERIF_FAMILIES": "C02,C01"}, "case_type": "conn_case", "imports": ["Lib.Bytes", "Codec.Desc", "Conn.Types", "Conn.Prog", "Conn.Sem1", "Run.CaseConn"], "checkers": {"C02": "check_c01", "C01": "check_c01"}, "shard": 40}, {"bin": "hash", "case_type": "c11case", "imports": ["Lib.Bytes", "Run.CaseC11"], "checkers": {"H": "check_c11", "D": "check_c11"}, "shard": 60}],
+        "harness": [{"bin": "mojang", "crate": "harness-net"}, {"bin": "conn", "max_scale": 2, "env": {"VERIF_FAMILIES": "C02,C01"}, "case_type": "conn_case", "imports": ["Lib.Bytes", "Codec.Desc", "Conn.Types", "Conn.Prog", "Conn.Sem1", "Run.CaseConn"], "checkers": {"C02": "check_c01", "C01": "check_c01"}, "shard": 40}, {"bin": "hash", "case_type": "c11case", "imports": ["Lib.Bytes", "Run.CaseC11"], "checkers": {"H": "check_c11", "D": "check_c11"}, "shard": 60}],
         "shard": 50,
         "quick_scale": 1, "thorough_scale": 10, "search_factor": 4,
         "ties": ["Adapters/MojangUrl.v: hand model of Url::parse_with_params + form_urlencoded::byte_serialize as used by "
